@@ -53,6 +53,8 @@ def run_case(ctx, case):
 
 def _run_case(ctx, case):
     from curtsies.formatstring import FmtStr
+    if case.get("twin_first"):
+        _run_case(ctx, dict(case, spec=case["twin_first"], twin_first=None))
     spec, new = case["spec"], case["new"]
     F = obs.spec_cells(spec)
     N = op_cells(new)
@@ -127,5 +129,9 @@ def run(ctx):
         new = rng.choice(NEWS) if rng.random() < .5 else obs.rand_spec(rng, 3, 3, "XYZ", palette=obs.PALETTE)
         s = rng.randint(0, L + 2)
         e = rng.choice([None, rng.randint(s, L + 2)])
-        run_case(ctx, {"spec": spec, "new": new, "start": s, "end": e})
+        case = {"spec": spec, "new": new, "start": s, "end": e}
+        tw = obs.twin(spec, rng)
+        if tw is not None and rng.random() < .5:
+            case["twin_first"] = tw
+        run_case(ctx, case)
         ctx.count("random_splices")
